@@ -59,9 +59,26 @@ def strpErrJson : StrpErr → List (String × Json)
   | .notInList => [("err", .str "ValueError"), ("kind", .str "notInList")]
   | .outOfRange => [("err", .str "ValueError"), ("kind", .str "outOfRange")]
 
+private def natOf (j : Json) (k : String) : Nat := (jint j k).toNat
+
+/-- `render`: `{"y","m","d","H","M","S": numbers, "spells": [{"unpad": bool, "blanks": text|null, "name": text|null}…]}` ↦ the text
+`strftimeWith` writes, whether the hypotheses of the round-trip theorem hold, and what `strptime` reads back from that text -/
+def handleStrftime (T : Tables) (fmt : TallyVerif.Csv.Str) (r : Json) : Json :=
+  let t : DateTime := { year := natOf r "y", month := natOf r "m", day := natOf r "d", hour := natOf r "H", minute := natOf r "M",
+                        second := natOf r "S" }
+  let sps : List Spell := (jarr r "spells").map fun s =>
+    { unpad := jbool s "unpad", blanks := (jstr? s "blanks").map String.toList, name := (jstr? s "name").map String.toList }
+  let text := strftimeWith sps fmt t
+  let back : List (String × Json) := match strptime T fmt text with
+    | .ok t' => [("back", .str (String.ofList (isoformat t')))]
+    | .error e => [("back_err", obj (strpErrJson e))]
+  obj ([("text", .str (String.ofList text)), ("fmtok", .bool (FmtOk fmt)), ("valid", .bool t.valid), ("yearfits", .bool (YearFits fmt t)),
+        ("spellsok", .bool (SpellsOk T sps fmt t)), ("expect", .str (String.ofList (isoformat (readBack fmt t))))] ++ back)
+
 def handleStrptime (j : Json) : Json :=
   let T := strpTablesOfJson j
   let fmt := (jstr j "fmt").toList
+  if (j.getObjVal? "render").isOk then handleStrftime T fmt (jget j "render") else
   let pat : List (String × Json) := match scan fmt with
     | .ok items => [("pattern", .str (String.join (items.map itemText)))]
     | .error _ => []
